@@ -242,6 +242,15 @@ func runCase(ld *Loaded, c Case, known map[string]bool, timeoutMs int, defSolver
 	if init := ld.pkg.Func("init"); init != nil {
 		ex.callFunction(st, init, nil, nil)
 	}
+	// pure standard-library packages whose code is executed as is need their
+	// tables initialised (only present when the code under test imports them)
+	for _, path := range []string{"unicode/utf8"} {
+		if dp := ld.pkg.Prog.ImportedPackage(path); dp != nil {
+			if init := dp.Func("init"); init != nil {
+				ex.callFunction(st, init, nil, nil)
+			}
+		}
+	}
 	ex.globalStores = 0
 	fn := ld.pkg.Func(c.Harness)
 	if fn == nil {
@@ -376,19 +385,41 @@ func runNative(repo, hdir string, reps []Replay) (map[string]NativeOutcome, stri
 	ovb, _ := json.Marshal(map[string]interface{}{"Replace": ov})
 	ovPath := filepath.Join(tmp, "overlay.json")
 	os.WriteFile(ovPath, ovb, 0o644)
-	cmd := exec.Command("go", "test", "-v", "-vet=off", "-count=1", "-run", "^TestVPReplay$", "-overlay", ovPath, "-timeout", "20m", ".")
-	cmd.Dir = repo
-	cmd.Env = append(os.Environ(), "VP_REPLAY_LIST="+listPath, "GOFLAGS=-mod=mod", "GOPROXY=off", "GOSUMDB=off", "GOTOOLCHAIN=local")
-	outb, err := cmd.CombinedOutput()
-	txt := string(outb)
-	for _, line := range strings.Split(txt, "\n") {
-		if i := strings.Index(line, "VPRESULT "); i >= 0 {
-			var o NativeOutcome
-			if json.Unmarshal([]byte(line[i+len("VPRESULT "):]), &o) == nil {
-				out[o.ID] = o
+	var txt string
+	var err2 error
+	remaining := reps
+	for round := 0; round < 12 && len(remaining) > 0; round++ {
+		b, _ := json.Marshal(remaining)
+		os.WriteFile(listPath, b, 0o644)
+		cmd := exec.Command("go", "test", "-v", "-vet=off", "-count=1", "-run", "^TestVPReplay$", "-overlay", ovPath, "-timeout", "20m", ".")
+		cmd.Dir = repo
+		cmd.Env = append(os.Environ(), "VP_REPLAY_LIST="+listPath, "GOFLAGS=-mod=mod", "GOPROXY=off", "GOSUMDB=off", "GOTOOLCHAIN=local")
+		outb, e := cmd.CombinedOutput()
+		err2 = e
+		txt = string(outb)
+		got := 0
+		for _, line := range strings.Split(txt, "\n") {
+			if i := strings.Index(line, "VPRESULT "); i >= 0 {
+				var o NativeOutcome
+				if json.Unmarshal([]byte(line[i+len("VPRESULT "):]), &o) == nil {
+					out[o.ID] = o
+					got++
+				}
 			}
 		}
+		if got == 0 {
+			break
+		}
+		// a hanging replay ends the process: run what is left in a new one
+		var rest []Replay
+		for _, r := range remaining {
+			if _, ok := out[r.ID]; !ok {
+				rest = append(rest, r)
+			}
+		}
+		remaining = rest
 	}
+	err = err2
 	if len(out) == 0 {
 		return out, txt, fmt.Errorf("native replay failed: %v", err)
 	}
@@ -699,10 +730,12 @@ func main() {
 			default:
 				repro := false
 				switch p.rep.Kind {
+				case "unwind":
+					repro = o.Status == "hang"
 				case "assert":
-					repro = o.Status == "assert" && o.Name == p.rep.Site
+					repro = (o.Status == "assert" && o.Name == p.rep.Site) || o.Status == "hang"
 				case "panic":
-					repro = o.Status == "panic"
+					repro = o.Status == "panic" || o.Status == "hang"
 				case "alloc", "footprint":
 					// decided by the engine's monitor; native run only has to be a valid execution
 					repro = o.Status != "assume"
